@@ -187,6 +187,7 @@ fn run_file(w: &mut Tape, env: &EnvRef, by_path: bool) -> RunResult {
         all_undefined: false,
         latin1: false,
         utf8: false,
+        other_cs: 0,
     };
     let mut t2 = Tape::generate(w.below(1 << 20) as u64);
     let model = model_items_undef(&ds::gen_dataset(&mut t2, &gcfg));
